@@ -1,5 +1,49 @@
-(* C20 -- placeholder until Proofs/C20.v lands. *)
-From GV Require Import Base.Prelude Model.C20.
-Theorem C20_collect_noop : forall f m s, step f m s Collect = (s, ONone).
-Proof. reflexivity. Qed.
-Print Assumptions C20_collect_noop.
+(* C20 -- property theorems only. *)
+From GV Require Import Base.Prelude Model.C20 Proofs.C20.
+
+(* A cached call returns what an uncached recomputation returns, for any interleaving of
+   New / Call (any arguments) / Drop / Collect and any cache size (so also across evictions) *)
+Theorem C20_transparent : forall f maxsize ops s' outs, run f maxsize init ops = (s', outs) ->
+  forall i k args back v hit, nth_error ops i = Some (Call k args back) ->
+  nth_error outs i = Some (OVal v hit) -> v = f k args.
+Proof. exact transparent. Qed.
+Print Assumptions C20_transparent.
+
+(* every hit returns a value computed earlier for the SAME object (uid), never one computed
+   for another object -- whatever addresses the allocator handed out *)
+Theorem C20_no_leak : forall f maxsize ops s' outs, run f maxsize init ops = (s', outs) ->
+  forall i k args back v, nth_error ops i = Some (Call k args back) ->
+  nth_error outs i = Some (OVal v true) ->
+  exists j, (j < i)%nat /\ exists back', nth_error ops j = Some (Call k args back') /\
+            nth_error outs j = Some (OVal v false).
+Proof. exact no_leak. Qed.
+Print Assumptions C20_no_leak.
+
+Theorem C20_cache_bounded : forall f maxsize ops s' outs,
+  run f maxsize init ops = (s', outs) -> (length (cache s') <= maxsize)%nat.
+Proof. exact cache_bounded. Qed.
+Print Assumptions C20_cache_bounded.
+
+Theorem C20_cache_keys_unique : forall f maxsize ops s' outs, run f maxsize init ops = (s', outs) ->
+  NoDup (map (fun e => (e_uid e, e_args e)) (cache s')).
+Proof. exact cache_keys_unique. Qed.
+Print Assumptions C20_cache_keys_unique.
+
+(* caching does not keep its object alive, provided cached values do not refer to their owner *)
+Theorem C20_not_pinned : forall f maxsize ops s' outs,
+  (forall k a b, In (Call k a b) ops -> b = false) ->
+  run f maxsize init ops = (s', outs) -> forall k, alive s' k = held s' k.
+Proof. exact not_pinned. Qed.
+Print Assumptions C20_not_pinned.
+
+(* KNOWN FINDING D10: a cached value that refers to its owner keeps it alive
+   (Jumps.collective() caches a Collective holding the Jumps object) *)
+Theorem C20_pinned_refuted : exists ops s' outs,
+  run (fun _ _ => 0) 128 init ops = (s', outs) /\ held s' 0 = false /\ alive s' 0 = true.
+Proof. exact pinned_refuted. Qed.
+Print Assumptions C20_pinned_refuted.
+
+Theorem C20_call_total : forall f maxsize s k a b, held s k = true ->
+  exists v h, snd (step f maxsize s (Call k a b)) = OVal v h.
+Proof. exact call_total. Qed.
+Print Assumptions C20_call_total.
